@@ -1,3 +1,5 @@
 import PPModel.Base.Sexp
 import PPModel.Mod.LineCol
 import PPModel.Driver.LineCol
+import PPModel.Mod.Settings
+import PPModel.Driver.Settings
